@@ -401,10 +401,24 @@ func (p *prop) Exec(lines []string) []string {
 	return outs
 }
 
-func (p *prop) query(q string) ([]interface{}, error) {
-	if p.index == "" {
-		return nil, fmt.Errorf("no schema line")
+// ensureIndex gives a case without a schema line (possible after shrinking) the empty schema the
+// model starts from: an index without fields and without existence tracking.
+func (p *prop) ensureIndex() {
+	if p.index != "" {
+		return
 	}
+	if p.s == nil {
+		p.s = srv.Start(2)
+	}
+	p.idx++
+	p.index = fmt.Sprintf("i%d", p.idx)
+	if _, err := p.s.API.CreateIndex(context.Background(), p.index, pilosa.IndexOptions{TrackExistence: false}); err != nil {
+		panic(err)
+	}
+}
+
+func (p *prop) query(q string) ([]interface{}, error) {
+	p.ensureIndex()
 	return p.s.Query(p.index, q, nil)
 }
 
@@ -485,9 +499,10 @@ func (p *prop) execLine(l string) string {
 		}
 		return "ok"
 	case "import":
-		if len(ws) != 3 || p.index == "" {
+		if len(ws) != 3 {
 			return "bad-op"
 		}
+		p.ensureIndex()
 		byShard := map[uint64]*pilosa.ImportRequest{}
 		var shards []uint64
 		for _, b := range strings.Split(ws[2], ",") {
